@@ -117,12 +117,19 @@ def tie(ctx):
         for combo in itertools.product(single, repeat=L):
             for automatic in (True, False):
                 cases.append((list(combo), 1, automatic, L, 1))
+    # targeted: k consecutive increases (the damping factor falls to 0.1 / 0.01) followed by in-tolerance iterations
+    for nv in (1, 2):
+        for k in (1, 2, 3):
+            for tail in (1, 2, 3):
+                for automatic in (True, False):
+                    obs = [(0.0, [float(2 ** i)] * nv) for i in range(k + 1)] + [(0.0, [1e-7] * nv)] * tail
+                    cases.append((obs, nv, automatic, len(obs), 1))
     # sampled: 2-3 variables, longer, other budgets and start factors
     for _ in range(ctx.budget(1500, 30000)):
         nv = int(rng.integers(1, 4))
         L = int(rng.integers(1, 9))
         obs = [(float(rng.choice(RES, p=[0.7, 0.2, 0.1])), [float(rng.choice(VALS)) for _ in range(nv)]) for _ in range(L)]
-        cases.append((obs, nv, bool(rng.random() < 0.7), int(rng.integers(1, L + 1)), float(rng.choice([1, 1, 0.5, 0.1]))))
+        cases.append((obs, nv, bool(rng.random() < 0.7), int(rng.integers(1, L + 1)), float(rng.choice([1, 1, 0.5, 0.1, 0.01]))))
     lines = [model_line(*c) for c in cases]
     out = LeanDriver().run(lines)
     bad = []
@@ -305,6 +312,17 @@ def scripted_clause_check():
                                       "detail": {"automatic": automatic, "variables": nv, "nan_at": "residual" if pos == nv else pos,
                                                  "iterations_before": len(pre), "converged": True},
                                       "replay": {"case": {"scripted": "nan"}}})
+    # "with automatic damping the damping factor in force after a converged iteration is 1" (machine-checked for the model:
+    # loop_converged_sound_partial): two rejected steps, then in-tolerance iterations - convergence may only be declared once
+    # the factor is back at 1
+    for nv in (1, 2):
+        for tail in (1, 2, 3):
+            obs = [(0.0, [1.0] * nv), (0.0, [2.0] * nv), (0.0, [4.0] * nv)] + [(0.0, [1e-7] * nv)] * tail
+            c, n, a, tr = run_real(obs, nv, True, len(obs), 1)
+            if c and abs(a - 1.0) > 1e-12:
+                fails.append({"fingerprint": "C05:converged-while-damping-factor-below-one", "clause": "converged (automatic) => damping factor back at 1",
+                              "detail": {"variables": nv, "in_tolerance_iterations": tail, "alpha_at_return": a, "niter": n},
+                              "replay": {"case": {"scripted": "alpha"}}})
     # "residual within tol_res": the residual vector's largest-magnitude entry is negative and above the tolerance, every
     # change far inside its tolerance -> must not converge
     for automatic in (False, True):
